@@ -50,6 +50,28 @@ def regen_static_len(ctx):
 GENERATORS = list(globals().get("GENERATORS", [])) + [regen_static_len]
 
 
+# --- tie of kind (1) (task W20): Gen/CodecRequired.lean is regenerated from the `is_required` properties of the seven parameter classes
+# the codec model knows and from composite_codec_get_required_parameters, and proved equal to the hand-written PKind.required / its
+# filter (Proofs/CodecRequiredGenEq.lean)
+LEAN_TARGETS = LEAN_TARGETS + ["OdxVerif.Props.C08GenRequired"]
+THEOREMS = THEOREMS + ["OdxVerif.Codec." + t for t in ["gen_isRequired_eq", "gen_required_eq", "gen_required_eq_all", "gen_required_raises",
+                                                       "C08_gen_required", "C08_gen_required_omission_fails"]]
+TRUSTED = TRUSTED + ["translator harness/extract/py2lean.py + primitives lean/OdxVerif/Model/PyRt.lean for <Class>.is_required (CodedConst, "
+                     "PhysicalConstant, Value, Reserved, MatchingRequest, NrcConst, LengthKey) and composite_codec_get_required_parameters; "
+                     "the dispatch of p.is_required on the class of p is the hand-written table Gen.isRequiredE (class <-> constructor of PKind; "
+                     "classes outside the model are a parameter of the rendering); ValueParameter._physical_default_value = the default of PKind.value"]
+
+
+def regen_required(ctx):
+    """Gen/CodecRequired.lean from the current source; Unsupported (source left the translator's subset) = broken obligation"""
+    import common
+    from extract import py2lean
+    py2lean.regenerate_required(common.REPO, common.VERIF)
+
+
+GENERATORS = list(globals().get("GENERATORS", [])) + [regen_required]
+
+
 def corpus():
     u8, val, C = D.u8, D.value, D.Composite
     out = []
@@ -303,3 +325,40 @@ NESTED_THEOREMS = NESTED_THEOREMS + ["OdxVerif.Codec." + t for t in [
     "C08_static_length_nested3_partial", "C08_compu_leaf_static_length", "C08_dtc_no_static_length", "C08_required_iff_not_omittable3",
     "C08_conv_leaf_required", "C08_required_nested3", "C08_not_required_nested3", "static_length_nested3", "StaticP3.sound",
     "PDesc.ofConv_static", "DescribedP3.fill_none", "CompuShape.static", "tDesc_static"]]
+# --- W20: the GENERATED is_required family against PKind.required of the nested tier. OdxVerif.Props.C08GenRequiredNested imports
+# Props.C08Nested2 (and Proofs/CodecRequiredGenEq.lean), so it cannot be imported next to Props/C08Struct.lean either; it is built and
+# audited on its own (lean/Audit/C08GenRequiredNested.lean) and NOT chained into NESTED_TARGET: when the source of an is_required
+# property changes and this tie breaks, the nested-tier theorems above stay audited. The generator regen_required (earlier in
+# GENERATORS) has rewritten Gen/CodecRequired.lean from the current source before this build.
+GEN_NESTED_TARGET = "OdxVerif.Props.C08GenRequiredNested"
+EXTRA_LEAN_TARGETS = EXTRA_LEAN_TARGETS + [GEN_NESTED_TARGET]
+GEN_NESTED_THEOREMS = ["OdxVerif.Codec." + t for t in ["PKind.isRequired_eq_required", "C08_gen_required_nested", "C08_gen_required_iff_not_omittable"]]
+
+
+def audit_gen_required_nested(ctx):
+    """build + `#print axioms` of Props/C08GenRequiredNested.lean in an environment of its own"""
+    import re
+    import common
+    rc, out = common.sh(["lake", "build", GEN_NESTED_TARGET], cwd=common.LEAN)
+    if rc != 0:
+        for t in GEN_NESTED_THEOREMS:
+            ctx.obligation(t, False, "build of %s failed" % GEN_NESTED_TARGET)
+        raise RuntimeError("lake build %s failed: %s" % (GEN_NESTED_TARGET, " | ".join([l for l in out.splitlines() if "error" in l][:5])))
+    audit = common.LEAN / "Audit" / "C08GenRequiredNested.lean"
+    audit.parent.mkdir(parents=True, exist_ok=True)
+    audit.write_text("import %s\n" % GEN_NESTED_TARGET + "\n".join("#print axioms %s" % t for t in GEN_NESTED_THEOREMS) + "\n")
+    rc, out = common.sh(["lake", "env", "lean", str(audit)], cwd=common.LEAN)
+    text = out.replace("\n  ", " ")
+    axioms = {}
+    for m in re.finditer(r"'([^']+)' (depends on axioms: \[([^\]]*)\]|does not depend on any axioms)", text):
+        axioms[m.group(1)] = set(a.strip() for a in (m.group(3) or "").split(",") if a.strip())
+    for t in GEN_NESTED_THEOREMS:
+        if t in axioms and axioms[t] <= common.STD_AXIOMS:
+            ctx.obligation(t, True, "axioms: " + ",".join(sorted(axioms[t])))
+        elif t in axioms:
+            ctx.obligation(t, False, "non-standard axioms: " + ",".join(sorted(axioms[t] - common.STD_AXIOMS)))
+        else:
+            ctx.obligation(t, False, "theorem not found in compiled environment")
+
+
+GENERATORS = list(globals().get("GENERATORS", [])) + [audit_gen_required_nested]
